@@ -114,7 +114,7 @@ package bcl
 //@       result0 == j + 1 && result1 == (j == 0 ? pos + 1 : pos - lc.lfs[j-1])
 //@   modifies nothing
 //
-//@ group C08,C14,C19
+//@ group C08,C14,C19,C16,C12
 //@ func (*lineCalc).format
 //@   assert [C08] formats_the_line_and_column_of_the_given_offset: at lineColAt#1: $pos == pos
 //@   modifies nothing
